@@ -461,6 +461,19 @@ class C08Executor(readfile.ReadFileExecutor):
         if h is not None:
             h(self, st, v, node)
 
+    def havoc_everything(self, st):
+        # An abstracted expression cannot rebind local names; handles of library objects (the input BytesIO, the opened
+        # container / reader) stay bound to the same object.  ASSUMED: it does not write into the input bytes (C06).
+        from pyvc.state import HeapObj
+        from pyvc.values import VMod
+        for fr in st.frames:
+            for k, v in list(fr.env.items()):
+                if not isinstance(v, (VFunc, VType, VMod, VUnk, VExt)):
+                    fr.env[k] = VUnk(f"havoc:{k}")
+        for r in list(st.heap):
+            o = st.heap[r]
+            st.heap[r] = HeapObj("unk", None, o.cls, o.fresh)
+
     def merge_states(self, states):
         for s_ in states:          # stream positions (raw z3 terms, irrelevant here) are forgotten at joins
             for k in [k for k in s_.ghost if isinstance(k, tuple) and k and k[0] == "pos"]:
@@ -496,6 +509,18 @@ def xls_loop_inv(lc):
                   ops.int_term(lc["data_len"]) == SLEN(ole, name))
 
 
+def _ft(c, name="file_like"):
+    v = c.args.get(name)
+    return v.t if isinstance(v, VExt) else None
+
+
+def _spec_or_unknown(spec, name="file_like"):
+    def r(c):
+        t = _ft(c, name)
+        return VBool(spec(t)) if t is not None else VBool(z3.Bool(fresh_name("detector_on_unknown")))
+    return r
+
+
 def detector_contracts(reg):
     out = []
     FL = [("file_like", p_ext("BytesIO"))]
@@ -506,29 +531,30 @@ def detector_contracts(reg):
         note="OLE container carries an encryption stream (EncryptionInfo / EncryptedPackage / DataSpaces)"))
     out.append(FnContract(
         target=f"{ENC}::is_ooxml_encrypted", params=FL, modifies=("file_like",),
-        returns=lambda c: VBool(spec_ooxml(c.args["file_like"].t)), raises=lib,
+        returns=_spec_or_unknown(spec_ooxml), raises=lib,
         note="OOXML wrapped in OLE: is an OLE file and has an encryption stream"))
     out.append(FnContract(
         target=f"{ENC}::is_ppt_encrypted", params=FL, modifies=("file_like",),
-        returns=lambda c: VBool(spec_ppt(c.args["file_like"].t)), raises=lib,
+        returns=_spec_or_unknown(spec_ppt), raises=lib,
         note="legacy PPT: OLE encryption stream or EncryptedSummary[Information]"))
     out.append(FnContract(
         target=f"{ENC}::is_xls_encrypted", params=FL, modifies=("file_like",),
-        returns=lambda c: VBool(spec_xls(c.args["file_like"].t)), raises=lib,
+        returns=_spec_or_unknown(spec_xls), raises=lib,
         loops={0: LoopSpec(inv=xls_loop_inv, label="record-chain",
                            decreases=lambda lc: ops.int_term(lc["data_len"]) - ops.int_term(lc["offset"]))},
         note="legacy XLS: FILEPASS (0x002F) somewhere on the BIFF record chain of the Workbook/Book stream"))
     out.append(FnContract(
         target=f"{ZB}::open_zipfile", assumed=True,
         params=[("file_like", p_ext("BytesIO")), ("limits", p_const(None)), ("source", p_const(None))],
-        returns=lambda c: VExt("ZipFile", ZIP_OF(c.args["file_like"].t)), raises=lib, modifies=("file_like",),
+        returns=lambda c: VExt("ZipFile", ZIP_OF(_ft(c))) if _ft(c) is not None else VExt("ZipFile"), raises=lib, modifies=("file_like",),
         note="verified by the C11 pack; here: the container view of the same bytes, or any exception"))
     out.append(FnContract(
         target=f"{ENC}::is_odf_encrypted", params=FL, modifies=("file_like",),
         result_maker=lambda ex, st, ctx: VBool(z3.Bool(fresh_name("odf_encrypted"))),
-        hyps=lambda c: xml_axiom(c.args["file_like"].t),
-        ensures=[("encrypted-manifest-is-detected", lambda c: z3.Implies(spec_odf(c.args["file_like"].t), c.result.t)),
-                 ("true-only-if-manifest-has-an-encryption-data-element", lambda c: z3.Implies(c.result.t, spec_odf(c.args["file_like"].t)))],
+        hyps=lambda c: xml_axiom(_ft(c)) if _ft(c) is not None else z3.BoolVal(True),
+        ensures=[("encrypted-manifest-is-detected", lambda c: z3.Implies(spec_odf(_ft(c)), c.result.t) if _ft(c) is not None else z3.BoolVal(True)),
+                 ("true-only-if-manifest-has-an-encryption-data-element",
+                  lambda c: z3.Implies(c.result.t, spec_odf(_ft(c))) if _ft(c) is not None else z3.BoolVal(True))],
         raises=lib,
         note="ODF: the manifest tree contains an encryption-data element"))
     return out
@@ -975,8 +1001,10 @@ def epub_contracts(reg):
     return [FnContract(
         target=f"{EPUB}::_is_epub_encrypted", params=[("ctx", p_ext("EpubContext"))], raises=[],
         result_maker=lambda ex, st, ctx: VBool(z3.Bool(fresh_name("epub_encrypted"))),
-        ensures=[("drm-protected-epub-is-detected", lambda c: z3.Implies(z3.And(readable(c), spec_epub_drm(c.args["ctx"].t)), c.result.t)),
-                 ("true-only-if-drm-protected", lambda c: z3.Implies(c.result.t, spec_epub_drm(c.args["ctx"].t)))],
+        ensures=[("drm-protected-epub-is-detected",
+                  lambda c: z3.Implies(z3.And(readable(c), spec_epub_drm(_ft(c, "ctx"))), c.result.t) if _ft(c, "ctx") is not None else z3.BoolVal(True)),
+                 ("true-only-if-drm-protected",
+                  lambda c: z3.Implies(c.result.t, spec_epub_drm(_ft(c, "ctx"))) if _ft(c, "ctx") is not None else z3.BoolVal(True))],
         note="EPUB: rights.xml, or encryption.xml with an EncryptedData entry that is not font obfuscation")]
 
 
@@ -1023,7 +1051,7 @@ def pdf_contracts(reg):
     t = f"{PDF}::_open_pdf_reader"
     out.append(FnContract(
         target=t, params=[("file_like", p_ext("BytesIO"))], modifies=("file_like",),
-        returns=lambda c: (c.st.ghost.__setitem__("reader_opened", True), VExt("PdfReader", READER_OF(c.args["file_like"].t)))[1],
+        returns=lambda c: (c.st.ghost.__setitem__("reader_opened", True), VExt("PdfReader", READER_OF(_ft(c))) if _ft(c) is not None else VExt("PdfReader"))[1],
         raises=[Raises("Exception", sub=True)],
         note="a reader over the given bytes (retry with the built-in AES after a DependencyError)"))
     EXECUTOR_KW[t] = {"abstract": True, "inline_calls": False}
@@ -1095,9 +1123,20 @@ EXTRACTORS = [   # (file, generator, detector contract target, spec over the inp
 ]
 
 
+def detector_arg(det, f):
+    """The object the detector must have been asked about, for input bytes f."""
+    return CTX_OF(f) if det.endswith("_is_epub_encrypted") else f
+
+
+def detector_done(st, det, f):
+    return f is not None and Term(detector_arg(det, f)) in st.ghost.get("detector_returned_on", frozenset())
+
+
 def mark_detector(c):
-    """Ghost: the detector has returned (evaluated at call sites only through `ensures`)."""
-    c.st.ghost["detector_returned"] = c.st.ghost.get("detector_returned", 0) + 1
+    """Ghost: the detector has returned a result for this object (set at call sites through returns / result_maker)."""
+    v = next(iter(c.args.values()), None)
+    if isinstance(v, VExt):
+        c.st.ghost["detector_returned_on"] = c.st.ghost.get("detector_returned_on", frozenset()) | {Term(v.t)}
     return z3.BoolVal(True)
 
 
@@ -1109,18 +1148,18 @@ def typestate_contracts(reg, detectors):
                 d.returns = (lambda r: (lambda c: (mark_detector(c), r(c))[1]))(d.returns)
             else:
                 d.result_maker = (lambda r: (lambda ex, st, ctx: (mark_detector(ctx), r(ex, st, ctx))[1]))(d.result_maker)
-    for (rel, fn, _det, spec) in EXTRACTORS:
-        def mk(rel=rel, fn=fn, spec=spec):
+    for (rel, fn, det, spec) in EXTRACTORS:
+        def mk(rel=rel, fn=fn, spec=spec, det=det):
             def sp(c):
                 return spec(c.args["file_like"].t)
 
             def ret(c):
-                return z3.BoolVal(bool(c.st.ghost.get("detector_returned")))
+                return z3.BoolVal(detector_done(c.st, det, c.args["file_like"].t))
 
             def on_yield(ex, st, v, node):
                 f = input_of(st)
                 ex.add_vc("typestate", "no-result-before-the-detector-said-not-encrypted", st.pc,
-                          z3.And(z3.BoolVal(bool(st.ghost.get("detector_returned"))), z3.Not(spec(f))) if f is not None else z3.BoolVal(False),
+                          z3.And(z3.BoolVal(detector_done(st, det, f)), z3.Not(spec(f))) if f is not None else z3.BoolVal(False),
                           loc=ex.loc(node), note=f"{ex.loc(node)} yield reachable without a negative detector result")
             c = FnContract(
                 target=f"{rel}::{fn}", params=[("file_like", p_ext("BytesIO")), ("path", p_opt(p_str()))], generator=True,
